@@ -44,6 +44,15 @@ class Ctx:
         if self.symbolic:
             import symx
 
+            k = (hi + 1).bit_length() - 1
+            if lo == 0 and hi > 0 and hi + 1 == 1 << k and k < W:
+                # structural encoding: a k-bit variable zero-extended (no range constraint needed,
+                # and the solver sees the high bits as constants)
+                v = z3.BitVec(name, k)
+                t = z3.ZeroExt(W - k, v)
+                self.engine.keep.append(v)
+                self._declare(name, "int", t, (lo, hi))
+                return symx.SInt(t, lo, hi)
             t = z3.BitVec(name, W)
             self._declare(name, "int", t, (lo, hi))
             self.engine.add(t >= lo, t <= hi)
@@ -144,6 +153,19 @@ class Ctx:
                 ok = z3.is_true(z3.simplify(term))
             if not ok:
                 raise AssumptionFailed(str(term))
+
+    def implied(self, cond):
+        """True / False when the path condition decides `cond`, else None (oracle simplification only:
+        the final assertion is still discharged against the complete path condition)."""
+        if not self.symbolic:
+            v = z3.simplify(cond)
+            return True if z3.is_true(v) else False if z3.is_false(v) else None
+        e = self.engine
+        if e.check(z3.Not(cond)) == z3.unsat:
+            return True
+        if e.check(cond) == z3.unsat:
+            return False
+        return None
 
     def values_of(self, model):
         """Concrete values of all holes under a model."""
